@@ -43,7 +43,7 @@ class Registry:
         self._load_oracles()
         if contract_modules is None:
             contract_modules = sorted(f[:-3] for f in os.listdir(os.path.join(VERIF, 'contracts'))
-                                      if f.endswith('.py') and not f.startswith('_'))
+                                      if f.endswith('.py') and not f.startswith('_') and f != 'ghost_programs.py')
         if VERIF not in sys.path:
             sys.path.insert(0, VERIF)
         for m in contract_modules:
@@ -143,7 +143,7 @@ class Registry:
     def resolve_global(self, I, name, frame):
         from .calls import BUILTIN_NAMES
         mod = frame.module
-        if I.spec:
+        if I.spec or mod == 'ghost':
             if name == 'result' or name in SPEC_PRIM_NAMES:
                 return SV('func', BuiltinRef('spec:' + name))
             if name in self.oracles:
